@@ -2,9 +2,9 @@ SPECIFICATION Spec
 CONSTANTS
   MaxN = 3
   S = 2
-  CloseOn = "first"
+  CloseOn = "wg"
   Ann = {1}
-  ErrCheck = FALSE
+  ErrCheck = TRUE
 INVARIANTS EofComplete
 PROPERTIES Settles
 CHECK_DEADLOCK FALSE
